@@ -43,6 +43,6 @@ class PathReverser(Transform[Path, Path]):
     def __call__(self, x: Path) -> Path:
         x[0].type, x[-1].type = x[-1].type, x[0].type
         t = self.to_tree(x)
-        t = redirect_tree(t, x[-1].id)
+        t = redirect_tree(t, t.number_of_nodes() - 1)
         p = t.get_paths()[0]
         return p
